@@ -84,6 +84,11 @@ THEOREMS = [
     "C19_restricted_flag_true_is_default",
     "C19_refused_load_keeps_children",
     "C19_late_class_check_orphans",
+    "C19_names_durable",
+    "C19_names_frame",
+    "C19_names_collide_witness",
+    "C19_retry_wins",
+    "C19_retry_removes_stale_suffix",
 ]
 RULE = (
     "seeded histories over {save ok | save cloudpickle-only | save unserialisable | save interrupted after k "
@@ -135,6 +140,9 @@ EXHAUSTIVE = {"quick": False, "thorough": True}
 
 GRAPHS = ("wf", "fn", "fac", "old")
 FNAMES = ("default", "explicit")
+# explicit names whose LAST COMPONENT CONTAINS A DOT, given as Path or as str, each with a neighbouring name that differs
+# only by the dotted tail and is used side by side (ops `at nb …`): (primary, as Path?, neighbour, as Path?)
+DOTTED = {"dotted": ("relax.v2", True, "relax", False), "dotted5": ("T_0.5", False, "T_0", True)}
 # how the class of the loading node is related to the class of the saved node (which relations exist per graph kind)
 RELS = {
     "wf": ("same", "samename", "diffname", "sub", "diffcomp"),
@@ -203,7 +211,11 @@ def _rand_history(rng, length, clean, kind="wf"):
                 have_good = have_good or (ops[-1][1] == "ok" and kind not in BY_VALUE)
             else:
                 ops.append(["crashnf", rng.choice(CONTENTS), v, rng.randint(0, 6), rng.choice(BYTESEL)])
-        elif r < 0.77:
+        elif r < 0.75:
+            prev = next((x for x in reversed(ops) if x[0] in ("save", "crash", "savenf", "crashnf")), None)
+            ops.append(_retry_of(prev))
+            have_good = have_good or (prev is not None and prev[1] != "bf" and not prev[0].endswith("nf"))
+        elif r < 0.78:
             ops.append(["load"])
         elif r < 0.84:
             ops.append(["delete"])
@@ -221,7 +233,7 @@ def _alphabet(kind="wf", maxk=None):
     maxk = maxk or {}
     al = [["save", c] for c in CONTENTS]
     al += [["crash", c, k] for c in CONTENTS for k in range(maxk.get(c, MAXK) + 1)]
-    al += [["load"], ["delete"], ["reopen"]]
+    al += [["load"], ["delete"], ["reopen"], ["retry"]]
     al += [["foreign", rel] for rel in RELS[kind]]
     al += [["foreign", rel, "in"] for rel in RELS[kind] if _can_place(kind, rel, "in")]
     return al
@@ -267,11 +279,33 @@ def _rand_tree_history(rng, length):
     return _number(ops)
 
 
+def _nb_alphabet():
+    """the ops under the neighbouring name of the dotted layouts"""
+    al = [["at", "nb", "save", c] for c in CONTENTS]
+    al += [["at", "nb", "crash", c, k] for c in CONTENTS for k in range(MAXK + 1)]
+    return al + [["at", "nb", "load"], ["at", "nb", "delete"]]
+
+
+def _retry_of(prev):
+    """the same save once more, with UNCHANGED content and version, this time to its end"""
+    if prev is None:
+        return ["load"]
+    if prev[0] == "at":
+        return [*prev[:2], "save", prev[3], prev[4]]
+    return [{"crash": "save", "crashnf": "savenf"}.get(prev[0], prev[0]), prev[1], prev[2]]
+
+
 def _number(ops):
-    """give every save/crash a distinct version (1, 2, ...) and a byte selector"""
+    """give every save/crash a distinct version (1, 2, ...) and a byte selector; `retry` repeats the last save-like op
+    of the list with the same content and version (a save interrupted and simply done again)"""
     out = []
     v = 0
     for op in ops:
+        if op == ["retry"]:
+            prev = next((x for x in reversed(out) if x[0] in ("save", "crash", "savenf", "crashnf")
+                         or (x[0] == "at" and x[2] in ("save", "crash"))), None)
+            out.append(_retry_of(prev))
+            continue
         if op[0] == "at" and op[2] in ("save", "crash"):
             v += 1
             sub = op[2:]
@@ -333,6 +367,35 @@ def gen_cases(rng, tier):
                             yield _case(g, f, _number([b, a, c]))
                 for c in nf_closers:
                     yield _case(g, f, _number([a, c]))
+    # a save interrupted at any call and simply done AGAIN with unchanged content and version (seeded C19-9: a retry that
+    # finds its bytes on disk must still tidy up), on top of each kind of good save
+    for g in (("wf", "fac") if tier == "quick" else GRAPHS):
+        for f in (("default",) if tier == "quick" else FNAMES):
+            for setup in ([["save", "ok"]], [["save", "pf"]], []):
+                for a in [x for x in _alphabet(g) + _nf_alphabet() if x[0] in ("crash", "crashnf")]:
+                    yield _case(g, f, _number([*setup, a, ["retry"], ["reopen"]]))
+                    if tier != "quick":
+                        yield _case(g, f, _number([*setup, a, ["retry"], ["retry"], ["load"]]))
+    # explicit names with a DOT in the last component (Path and str), alone and side by side with the neighbouring name
+    # that differs only by the dotted tail: every op alone, every op after each set-up, under either name
+    for fn, g in ((("dotted", "wf"), ("dotted5", "fn")) if tier == "quick"
+                  else tuple((fn, g) for fn in DOTTED for g in GRAPHS)):
+        al = [x for x in _alphabet(g) if not (x[0] == "foreign" and len(x) == 3)] + _nb_alphabet()
+        d_setups = [["save", "ok"], ["save", "pf"], ["at", "nb", "save", "ok"], ["at", "nb", "save", "pf"]]
+        for a in al:
+            yield _case(g, fn, _number([a]))
+        for a in (d_setups if tier == "quick" else al):
+            for b in al:
+                yield _case(g, fn, _number([a, b]))
+        if tier != "quick":
+            for a in d_setups:
+                for b in d_setups:
+                    for c in al:
+                        yield _case(g, fn, _number([a, b, c]))
+        for _ in range(80 if tier == "quick" else 1500):
+            hist = [rng.choice(al) if rng.random() < 0.6 else rng.choice(d_setups + [["load"], ["at", "nb", "load"], ["retry"]])
+                    for _ in range(rng.randint(3, 8))]
+            yield _case(g, fn, _number(hist))
     # nested nodes, checkpoints, recovery files (Workflow graph, default location): every op alone, every op after each
     # of a few set-ups (good saves in the different stores), every op followed by each delete / load -- thorough: all pairs
     tree_a, tree_all, main_al = _tree_alphabet(("a",)), _tree_alphabet(), _alphabet("wf")
@@ -449,6 +512,14 @@ def corpus():
     # C08-2: a checkpoint that needs cloudpickle after one that did not (the stale .pckl must go)
     yield _case("wf", "default", [["ckpt", "ok", 1], ["ckpt", "pf", 2], ["reopen"], ["fail", "ok", 3], ["fail", "pf", 4],
                                   ["at", "rec", "load"]])
+    # C19-9: good .pckl, a cloudpickle-only save cut between os.replace and the removal of the .pckl, the same save again
+    yield _case("wf", "default", [["save", "ok", 1], ["crash", "pf", 2, 7, "mid"], ["save", "pf", 2], ["reopen"], ["load"]])
+    yield _case("wf", "explicit", [["save", "pf", 1], ["crash", "ok", 2, 5, "mid"], ["save", "ok", 2], ["load"]])
+    # C19-8 / KF-C19-7: dotted explicit names: a save that changes suffix; the neighbouring name side by side
+    for fn in DOTTED:
+        yield _case("wf", fn, [["save", "ok", 1], ["save", "pf", 2], ["load"], ["save", "ok", 3], ["load"]])
+        yield _case("wf", fn, [["save", "ok", 1], ["at", "nb", "save", "ok", 2], ["load"], ["at", "nb", "load"],
+                               ["at", "nb", "save", "pf", 3], ["load"], ["at", "nb", "delete"], ["load"]])
     # C19-5: the last good save is a .cpckl; a save with the per-call flag cloudpickle_fallback=False fails (content pickle
     # cannot do / node class not importable) or is interrupted -- the .cpckl must survive
     for g in ("wf", "fac", "old"):
@@ -485,6 +556,12 @@ class _Store:
             # `StorageInterface._parse_filename`: <lexical path>/<name of the back end's class, lower case>
             self.base = "picklestorage" if self.backend is None else type(self.backend).__name__.lower()
             self.kw = {}
+        elif fname in DOTTED:
+            prim, as_path, nb, nb_as_path = DOTTED[fname]
+            self.root = cwd / "xdir"
+            self.base = prim
+            self.kw = {"filename": Path("xdir") / prim if as_path else f"xdir/{prim}"}
+            self.nb_kw = {"filename": Path("xdir") / nb if nb_as_path else f"xdir/{nb}"}
         else:
             self.root = cwd / "xdir"
             self.base = "custom"
@@ -504,6 +581,15 @@ class _Store:
                           (("pckl", "pckl"), ("cpckl", "cpckl"), ("pckl.tmp", "pt"), ("cpckl.tmp", "ct"))}
         self.child_names = {f"picklestorage.{suf}": sl for suf, sl in
                             (("pckl", "pckl"), ("cpckl", "cpckl"), ("pckl.tmp", "pt"), ("cpckl.tmp", "ct"))}
+        # two explicit names in one directory: the files keyed by the FULL primary name are the main columns, those
+        # keyed by the neighbouring name the `rec` columns (whatever the library makes of the dotted tail)
+        self.two_names = fname in DOTTED
+        if self.two_names:
+            nb = DOTTED[fname][2]
+            self.rec_names = {f"{nb}.{suf}": f"r.{sl}" for suf, sl in
+                              (("pckl", "pckl"), ("cpckl", "cpckl"), ("pckl.tmp", "pt"), ("cpckl.tmp", "ct"))}
+            if self.backend is not None:
+                self.nb_kw = {**self.nb_kw, "backend": self.backend}
 
     def slot(self, path) -> str | None:
         """slot name of a path inside the store, '' for the directory itself, None if elsewhere"""
@@ -513,7 +599,7 @@ class _Store:
             return ""
         n = os.path.basename(p)
         if os.path.dirname(p) == r:
-            if self.nested and n in self.rec_names:
+            if (self.nested or self.two_names) and n in self.rec_names:
                 return self.rec_names[n]
             if self.nested and n in CHILDREN:
                 return n
@@ -527,7 +613,7 @@ class _Store:
         """{slot: path} of store `which` (main | rec | a | b)"""
         if which == "main":
             return {sl: self.root / nm for nm, sl in self.names.items()}
-        if which == "rec":
+        if which in ("rec", "nb"):
             return {sl[2:]: self.root / nm for nm, sl in self.rec_names.items()}
         return {sl: self.root / which / nm for nm, sl in self.child_names.items()}
 
@@ -928,6 +1014,10 @@ def _fs_obs(store, kind):
     known = set(store.names)
     absent = ["absent"] * 4
     d["rec"], d["a"], d["b"] = list(absent), [0, *absent], [0, *absent]
+    if store.two_names:
+        known |= set(store.rec_names)
+        fr = store.files_of("nb")
+        d["rec"] = [_file_state(fr[x], kind) for x in ("pckl", "cpckl", "pt", "ct")]
     if store.nested:
         known |= set(store.rec_names) | set(CHILDREN)
         fr = store.files_of("rec")
@@ -954,9 +1044,10 @@ def _refusal(store, which, loader_cls, fallback=True):
     class (`classMismatch`); anything else = the file could not be read (`corrupt`)."""
     import pickle
 
-    files = store.files_of(which)
-    for slot in ("pckl", "cpckl") if fallback else ("pckl",):
-        path = files[slot]
+    # (two names that differ by a dotted tail: whichever of the two keys the library makes of the name it was given)
+    keys = [which] + ([k for k in ("main", "nb") if k != which] if store.two_names and which in ("main", "nb") else [])
+    candidates = [store.files_of(k)[slot] for k in keys for slot in (("pckl", "cpckl") if fallback else ("pckl",))]
+    for path in candidates:
         if os.path.isfile(path):
             try:
                 with open(path, "rb") as fh:
@@ -1062,6 +1153,10 @@ def _is_tree_op(op):
 def _valid(op, kind="wf", fname="default"):
     if not isinstance(op, list) or not op:
         return False
+    if op[0] == "at" and len(op) >= 3 and op[1] == "nb":
+        # the neighbouring explicit name exists in the dotted layouts, for every graph kind
+        rest = op[2:]
+        return fname in DOTTED and (rest in (["load"], ["delete"]) or _flat_valid(rest))
     if _is_tree_op(op):
         # nested nodes, checkpoints and recovery files exist for the Workflow graph under its default location
         if kind != "wf" or fname != "default":
@@ -1148,6 +1243,9 @@ def _store_probe(kind, store, which):
 
     root = _mk_graph(kind)
     try:
+        if which == "nb":
+            root.load(**store.nb_kw)
+            return f"loaded:{_ver(root)}", None
         if which == "rec":
             root.load(filename=f"{store.root.name}/recovery")
             return f"loaded:{_ver(root)}", None
@@ -1158,7 +1256,7 @@ def _store_probe(kind, store, which):
     except FileNotFoundError:
         return "notFound", "FileNotFoundError"
     except TypeError:
-        return _refusal(store, which, _graph_class(kind) if which == "rec" else nc.Base), "TypeError"
+        return _refusal(store, which, _graph_class(kind) if which in ("rec", "nb") else nc.Base), "TypeError"
     except Exception as e:  # noqa: BLE001
         return "corrupt", type(e).__name__
 
@@ -1171,7 +1269,13 @@ def run_impl(case):
     obs, recs = [], []
     stats: dict[str, int] = {f"graph:{kind}": 1, f"fname:{case['fname']}": 1,
                              f"backend:{case.get('backend', 'default')}": 1}
-    tree = any(_is_tree_op(op) and _valid(op, kind, _layout(case)) for op in case["ops"])
+    tree = store.nested and any(_is_tree_op(op) and _valid(op, kind, _layout(case)) for op in case["ops"])
+    nbnode = [None]  # the other graph object, the one that is saved under the neighbouring name (dotted layouts)
+
+    def neighbour():
+        if nbnode[0] is None:
+            nbnode[0] = _mk_graph(kind)
+        return nbnode[0]
 
     def bump(k):
         stats[k] = stats.get(k, 0) + 1
@@ -1227,6 +1331,7 @@ def run_impl(case):
             _set(node, op[2], op[1])
             steps = interrupted(lambda: node.save(**store.kw), op[3], op[4], rec)
             node = _mk_graph(kind)
+            nbnode[0] = None
             res = "crashed"
         elif op[0] == "load":
             before = _summary(node)
@@ -1248,6 +1353,7 @@ def run_impl(case):
             _set(node, op[2], op[1])
             steps = interrupted(lambda: node.save(cloudpickle_fallback=False, **store.kw), op[3], op[4], rec)
             node = _mk_graph(kind)
+            nbnode[0] = None
             res = "crashed"
         elif op[0] == "foreign":
             placement = op[2] if len(op) == 3 else "alone"
@@ -1267,6 +1373,25 @@ def run_impl(case):
                 rec["rel"] = "diffcomp"
             fid = REL_ID[op[1]] if (rec["rel"] == op[1] and type(f) is f_cls) else 9
             res = f"{tok} foreign={fid}:{_ver(f)}"
+        elif op[0] == "at" and op[1] == "nb":
+            sub = op[2:]
+            rec["store"] = "nb"
+            if sub[0] == "save":
+                _set(neighbour(), sub[2], sub[1])
+                steps, _o, exc = complete(lambda: neighbour().save(**store.nb_kw))
+                res = "saveRaised" if exc else "saved"
+                rec["exc"] = exc
+            elif sub[0] == "crash":
+                _set(neighbour(), sub[2], sub[1])
+                steps = interrupted(lambda: neighbour().save(**store.nb_kw), sub[3], sub[4], rec)
+                node = _mk_graph(kind)
+                nbnode[0] = None
+                res = "crashed"
+            elif sub == ["load"]:
+                res, rec["exc"] = _store_probe(kind, store, "nb")
+            else:
+                steps, _o, _e = complete(lambda: _mk_graph(kind).delete_storage(**store.nb_kw))
+                res = "deleted"
         elif op[0] == "at":
             which, sub = op[1], op[2:]
             rec["store"] = which
@@ -1314,6 +1439,8 @@ def run_impl(case):
         if tree:
             for which in STORES:
                 probe[which], probe[which + "_exc"] = _store_probe(kind, store, which)
+        if store.two_names:
+            probe["nb"], probe["nb_exc"] = _store_probe(kind, store, "nb")
         rec.update(res=res, fs=fs, ver=_ver(node), steps=steps, probe=probe)
         recs.append(rec)
         obs.append(_fmt(res, fs, probe, rec["ver"], steps, f" kids={rec['kids']}" if "kids" in rec else ""))
@@ -1347,10 +1474,12 @@ def nontrivial(case, r):
 
 def model_input(case, impl=None):
     kind = case.get("graph", "wf")
-    lines = []
+    lines = ["layout dotted"] if (case.get("fname") in DOTTED) else []
     for op in case["ops"]:
         if _is_tree_op(op) and _valid(op, kind, _layout(case)):
             flat = [str(x) for x in op]
+            if op[0] == "at" and op[1] == "nb" and op[2] in ("save", "crash") and kind in BY_VALUE and op[3] == "ok":
+                flat[3] = "pf"  # a class that can only be pickled by value
             if op[0] == "at" and op[2] == "crash" or op[0] in ("ckptcrash", "failcrash"):
                 flat = flat[:-1]  # the byte selector does not exist in the model
             lines.append(" ".join(flat))
@@ -1386,7 +1515,8 @@ def model_input(case, impl=None):
     return lines
 
 
-_TAGS = {"I": "inPlace", "A": "atomicReplace", "S": "atomicSweep", "C": "atomicSweepClimb"}
+_TAGS = {"I": "inPlace", "A": "atomicReplace", "S": "atomicSweep", "C": "atomicSweepClimb",
+         "D": "atomicSweepClimbAppend"}
 _ALLOWED = set(_TAGS.values())
 _SEEN = {"several": 0, **{v: 0 for v in _TAGS.values()}}
 
@@ -1474,7 +1604,7 @@ def _g_empty(fs):
 def _store_files(fs, which):
     if which == "main":
         return {x: fs[x] for x in ("pckl", "cpckl", "pt", "ct")}
-    vals = fs["rec"] if which == "rec" else fs[which][1:]
+    vals = fs["rec"] if which in ("rec", "nb") else fs[which][1:]
     return dict(zip(("pckl", "cpckl", "pt", "ct"), vals))
 
 
@@ -1502,7 +1632,8 @@ def oracle(case, r):
 
     # per store: version of the newest completed save since the last delete, and the versions of interrupted saves
     # (serialisable content) after it
-    prom = {w: {"exp": None, "inf": set()} for w in ("main", *STORES)}
+    prom = {w: {"exp": None, "inf": set()} for w in ("main", *STORES, "nb")}
+    dotted = case.get("fname") in DOTTED
     default = case["fname"] == "default"
     prev_fs = None
     for k, rec in enumerate(r.get("recs", [])):
@@ -1532,7 +1663,7 @@ def oracle(case, r):
         elif kindop == "delete":
             prom[target] = {"exp": None, "inf": set()}
 
-        for which in ("main", *STORES):
+        for which in ("main", *STORES, "nb"):
             if which == "main":
                 probes = [("load", pr["load"], pr["load_exc"])]
                 if default:
@@ -1544,6 +1675,9 @@ def oracle(case, r):
             expected, inflight = prom[which]["exp"], prom[which]["inf"]
             mine = which == target
             more = {} if which == "main" else {"store": which}
+            if dotted:
+                # two names that differ by a dotted tail: was it an op under the OTHER name that did this
+                more = {**more, "layout": "dotted", "cross": "same-name" if mine else "other-name"}
             wtrig = trig if mine else f"{trig}@{target}"
             nw = len(fails)
             # clause 1 / 3: the last completed save (or a later, fully written, interrupted one) is what loads
@@ -1647,7 +1781,7 @@ def shrink_candidates(case):
         yield {**case, "ops": ops[:i] + ops[i + 1:]}
     if case["graph"] != "wf" and all(_valid(op, "wf") for op in ops):
         yield {**case, "graph": "wf"}
-    if case["fname"] != "default":
+    if case["fname"] != "default" and not any(op and op[0] == "at" and op[1] == "nb" for op in ops):
         yield {**case, "fname": "default"}
     if case.get("backend") == "custom":
         yield {k: v for k, v in case.items() if k != "backend"}
